@@ -431,6 +431,28 @@ fn c04_bounds(rep: &mut Rep) {
         let is_int = |e: &SubtypeElements| matches!(e, SubtypeElements::SingleValue { value: ASN1Value::Integer(_), .. }) || matches!(e, SubtypeElements::ValueRange { min, max, .. } if min.as_ref().map_or(true, |m| matches!(m, ASN1Value::Integer(_))) && max.as_ref().map_or(true, |m| matches!(m, ASN1Value::Integer(_))));
         let lo = |e: &SubtypeElements| match e { SubtypeElements::SingleValue { value: ASN1Value::Integer(i), .. } => Some(*i), SubtypeElements::ValueRange { min: Some(ASN1Value::Integer(i)), .. } => Some(*i), _ => None };
         let hi = |e: &SubtypeElements| match e { SubtypeElements::SingleValue { value: ASN1Value::Integer(i), .. } => Some(*i), SubtypeElements::ValueRange { max: Some(ASN1Value::Integer(i)), .. } => Some(*i), _ => None };
+        {
+            use rasn_compiler::verif_hooks::{hook_default_unsigned, hook_range_from_constraint, hook_range_from_element};
+            rep.check("C04.default_unsigned.lower_bound_zero_only", hook_default_unsigned() == (Some(0), None, false, false), || String::new());
+            rep.check("C04.range_from_element.no_element_is_unconstrained", matches!(hook_range_from_element(None), Ok((None, None, false, false))), || "no element".to_string());
+            rep.check("C04.range_from_constraint.other_constraints_are_unconstrained", matches!(hook_range_from_constraint(&Constraint::Parameter(vec![])), Ok((None, None, false, _))), || "a parameter constraint".to_string());
+            for (e, te) in &leaves {
+                let d = || format!("({te})");
+                let r = hook_range_from_element(Some(e));
+                match e {
+                    SubtypeElements::SingleValue { .. } => rep.check("C04.range_from_element.single_value_is_both_bounds", matches!(&r, Ok((mn, mx, _, false)) if *mn == lo(e) && *mx == lo(e)), d),
+                    _ => rep.check("C04.range_from_element.range_ends_are_the_bounds", matches!(&r, Ok((mn, mx, _, false)) if *mn == lo(e) && *mx == hi(e)), d),
+                }
+                rep.check("C04.range_from_element.extensible_iff_the_element_is", matches!(&r, Ok((_, _, x, _)) if *x == ext(e)), d);
+                for outer in [false, true] {
+                    let c = Constraint::Subtype(ElementSetSpecs { set: ElementOrSetOperation::Element(e.clone()), extensible: outer });
+                    let d = || format!("({te}{})", if outer { ", ..." } else { "" });
+                    let r = hook_range_from_constraint(&c);
+                    rep.check("C04.range_from_constraint.element_ends_are_the_bounds", matches!(&r, Ok((mn, mx, _, _)) if *mn == lo(e) && *mx == hi(e)), d);
+                    rep.check("C04.range_from_constraint.extensible_iff_a_marker_is_written", matches!(&r, Ok((mn, mx, x, _)) if *x == (ext(e) || (outer && (mn.is_some() || mx.is_some())))), d);
+                }
+            }
+        }
         let ops = [(SetOperator::Union, "|"), (SetOperator::Intersection, "^")];
         let probes: Vec<i128> = (-2..=12).collect();
         for (a, ta) in &leaves { for (op1, t1) in &ops { for (b, tb) in &leaves {
@@ -455,6 +477,16 @@ fn c04_bounds(rep: &mut Rep) {
             }
             if r.is_err() {
                 rep.check("C04.fold_constraint_set.two_elements_rejected_only_if_empty", *t1 == "^" && matches!(a, SubtypeElements::SingleValue { .. }) && matches!(b, SubtypeElements::SingleValue { .. }) && lo(a) != lo(b), d);
+            }
+            // the same expression as a constraint, with and without the outer marker
+            for outer in [false, true] {
+                use rasn_compiler::verif_hooks::hook_range_from_constraint;
+                let c = Constraint::Subtype(ElementSetSpecs { set: ElementOrSetOperation::SetOperation(set.clone()), extensible: outer });
+                let d = || format!("(({ta} {t1} {tb}){})", if outer { ", ..." } else { "" });
+                if let Ok((mn, mx, x, _)) = hook_range_from_constraint(&c) {
+                    rep.check("C04.range_from_constraint.never_excludes_a_permitted_value", probes.iter().all(|v| !in_set(*v) || (mn.map_or(true, |m| m <= *v) && mx.map_or(true, |m| *v <= m))), d);
+                    rep.check("C04.range_from_constraint.extensible_iff_a_marker_is_written", x == (ext(a) || ext(b) || (outer && (mn.is_some() || mx.is_some()))), d);
+                }
             }
             // three elements: a op1 (b op2 c), as the parser nests them
             for (op2, t2) in &ops { for (c, tc) in leaves.iter().step_by(3) {
